@@ -110,9 +110,28 @@ def explicit_step(ctx, g, dims, periodic=False):
     for cc in scen.interior_cells(dims):
         ctx.eq('%s/update/%s' % (tag, '_'.join(map(str, cc))), new._value[cc], old[tuple(q - 1 for q in cc)] + dt * R[int(G[cc])])
     fresh = pf.CellVariable(m, np.array(new.value), BC)
+    geo = scen.Geo(ctx, g, fs)
+    nd = len(dims)
     for cc in scen.all_cells(dims):
         if scen.n_out(cc, dims) == 1:
             ctx.same_term('%s/ghost/%s' % (tag, '_'.join(map(str, cc))), new._value[cc], fresh._value[cc])
+            # boundary values re-imposed: the Robin relation itself (not only agreement with a fresh variable)
+            ax = [b for b, (k, n) in enumerate(zip(cc, dims)) if k == 0 or k == n + 1][0]
+            side = scen.SIDES[2 * ax + (0 if cc[ax] == 0 else 1)]
+            f = getattr(new.BCs, side)
+            if f.periodic or getattr(new.BCs, scen.SIDES[2 * ax + (1 if cc[ax] == 0 else 0)]).periodic:
+                continue
+            inner = list(cc); inner[ax] = 1 if cc[ax] == 0 else dims[ax]
+            inner = tuple(inner)
+            idx = tuple(k - 1 for b, k in enumerate(inner) if b != ax)
+            a_, b_, c_ = (np.asarray(x) for x in (f.a, f.b, f.c))
+            pick = (lambda z: z.reshape(-1)[0]) if nd == 1 else ((lambda z: z.reshape(-1)[idx[0]]) if nd == 2 else (lambda z: z[idx]))
+            av, bv, cv = pick(a_), pick(b_), pick(c_)
+            i0 = tuple(k - 1 for k in inner)
+            d = geo.d(ax, i0[ax]) * geo.metric(ax, i0)
+            lo_v, hi_v = (new._value[cc], new._value[inner]) if cc[ax] == 0 else (new._value[inner], new._value[cc])
+            gcoef = (-av / d + bv / 2) if cc[ax] == 0 else (av / d + bv / 2)
+            ctx.eq('%s/robin/%s' % (tag, '_'.join(map(str, cc))), av * (hi_v - lo_v) / d + bv * (hi_v + lo_v) / 2, cv, pre=[gcoef != 0])
     # input untouched
     ctx.fact(tag + '/result_is_new_object', new is not phi and new._value is not phi._value and not np.shares_memory(new._value, phi._value))
     after = scen.flat(phi._value)
